@@ -154,6 +154,16 @@ pub fn jobs_for(prop: &str, thorough: bool) -> Vec<Job> {
             c.anyk = true;
             c.policy = 255;
             js.push(job("OS", "4 replicas, 30 steps", c, None, 2000));
+            // observers fed along adversarial per-actor-ordered extensions (removes before the adds they cover),
+            // model checked at *every* knowledge set of every observer
+            let mut c = Cfg::base(3, 14, Delivery::Causal, mon::SPEC | mon::CTX);
+            c.nobs = 2;
+            c.anyk = true;
+            c.dups = true;
+            c.policy = 255;
+            let mut swp = sw(12, Delivery::Fifo, 2).unwrap();
+            swp.merges = true;
+            js.push(job("OS", "observer sweep along adversarial FIFO extensions, model at every K", c, Some(swp), 2500));
         }
         "C05" => {
             let mut ms = MAPS.to_vec();
@@ -174,6 +184,13 @@ pub fn jobs_for(prop: &str, thorough: bool) -> Vec<Job> {
                 c.dups = true;
                 c.policy = 255;
                 js.push(job(s, "4 actors, ops only, causal", c, None, 1000));
+                let mut c = Cfg::base(3, 14, Delivery::Causal, mon::SPEC);
+                c.nobs = 2;
+                c.anyk = true;
+                c.policy = 255;
+                let mut swp = sw(10, Delivery::Fifo, 2).unwrap();
+                swp.merges = true;
+                js.push(job(s, "observer sweep along adversarial FIFO extensions, model at every K", c, Some(swp), 1200));
             }
         }
         "C06" => {
